@@ -22,6 +22,9 @@ pub struct MDef {
     pub autouse: bool,
     pub deps: Vec<String>,
     pub origin: Origin,
+    /// a workspace-plugin fixture only because the plugin's entry module names it in an explicit import
+    /// (the module that defines it is not a plugin module as a whole: no per-file plugin flag is expected)
+    pub via_explicit_only: bool,
 }
 
 impl MDef {
@@ -82,11 +85,59 @@ impl<'a> Model<'a> {
                     autouse: fx.style != 2 && fx.autouse,
                     deps: if fx.style == 2 { vec![] } else { fx.deps.clone() },
                     origin,
+                    via_explicit_only: false,
                 });
             }
         }
         let files = spec.files.iter().map(|f| f.rel.clone()).collect();
-        Model { spec, rendered, defs, files }
+        let mut m = Model { spec, rendered, defs, files };
+        // what a workspace plugin's entry module pulls in is plugin-level too: whole modules through star imports and
+        // pytest_plugins (transitively), single fixtures through explicit imports
+        let mut closure: BTreeSet<String> = spec.plugin_files.iter().cloned().collect();
+        loop {
+            let mut add = vec![];
+            for f in &closure {
+                let Some(pf) = spec.file(f) else { continue };
+                let last_plugins = pf.items.iter().rposition(|i| matches!(i, Item::Plugins { .. }));
+                for (idx, it) in pf.items.iter().enumerate() {
+                    match it {
+                        Item::Star { target: Some(t), .. } if !closure.contains(t) => add.push(t.clone()),
+                        Item::Plugins { targets, .. } if Some(idx) == last_plugins => add.extend(targets.iter().flatten().filter(|t| !closure.contains(*t)).cloned()),
+                        _ => {}
+                    }
+                }
+            }
+            if add.is_empty() {
+                break;
+            }
+            closure.extend(add);
+        }
+        let mut explicit: Vec<usize> = vec![];
+        for f in &closure {
+            let Some(pf) = spec.file(f) else { continue };
+            for it in &pf.items {
+                if let Item::Import { target: Some(t), names, .. } = it {
+                    if m.files.contains(t) {
+                        let ex = m.exported(t, &mut BTreeSet::new());
+                        for n in names {
+                            explicit.extend(ex.get(n).cloned().unwrap_or_default());
+                        }
+                    }
+                }
+            }
+        }
+        for d in m.defs.iter_mut() {
+            if d.origin == Origin::Project && closure.contains(&d.file) {
+                d.origin = Origin::WorkspacePlugin;
+            }
+        }
+        for i in explicit {
+            if m.defs[i].origin == Origin::Project {
+                m.defs[i].origin = Origin::WorkspacePlugin;
+                m.defs[i].via_explicit_only = true;
+            }
+        }
+        m
     }
 
     pub fn defs_in(&self, file: &str, name: &str) -> Vec<usize> {
